@@ -21,6 +21,7 @@ CONSTANTS
     AbsLookup,            \* F4  prune looks the absolute path up inside the newer subtree
     FnTruthyWhenEmpty,    \* F5  emptied function node survives a delete
     StreamLeaksMerge,     \* F6  StreamNode hands implicit_delete=False to its stages
+    ClearDropsDelTagged,  \* F12 !clear of a container tagged !del earlier removes the key
     DefaultSafeOverwrite, \* F7  _replace_* overwrite _default_safe instead of and-ing
     \* One named design mutation ("none" in every real cfg).  Mutation cfgs set
     \* it and expect TLC to refute the property: the vacuity guard.
